@@ -90,11 +90,12 @@ def nextTok (rem : Bool) : Pos → TokRes
   | .inw c cs ws => if rem then .tok (.value (c :: cs)) (.bnd false false ws) else inWordTok c cs ws
   | .eqv v ws => .tok (.value v) (.bnd false false ws)
 
-/-- the key an element stands for -/
+/-- the key an element stands for (`wordKey n`: what the constructor for key specifications makes of
+    the name `n`, of `--n` when `n` has one character — `Handler::evalSingleArgument`, case `stringArg`) -/
 def KeyTok (t : Tok) (k : Key) : Prop :=
   match t with
   | .short c => k = Key.ofChar c
-  | .long n => Key.parse n = .ok k
+  | .long n => wordKey n = .ok k
   | _ => False
 
 /-- `SP cfg l inv r us`: from the element/position `r` on, the line spells the uses `us`;
